@@ -1511,7 +1511,7 @@ Proof.
   intros F Hi Hp.
   assert (Hc : cnt_ok t).
   { eapply (srun_cnt evs init st None); eauto. intros [|j] t0 Hj; simpl in Hj; discriminate. }
-  simpl. rewrite Hi. simpl. rewrite Hi. simpl. rewrite Hp. simpl.
+  unfold sstep. rewrite Hi. unfold step. rewrite Hi. unfold resume_status. rewrite Hp. simpl.
   eexists. eexists. split; [reflexivity|]. simpl. split; [apply nth_upd_same; exact Hi|].
   unfold cnt_ok in Hc. simpl. replace (length (log t) - length (nrf t)) with (seen t) by lia. auto.
 Qed.
